@@ -76,6 +76,8 @@ type VC struct {
 	wfHeap    bool
 	reveal    map[string]bool
 	opq       map[string]*opqInfo
+	hoisted   map[string]Term
+	namedInv  bool
 	splitInfo string
 	entryEnv  *Env
 	sums      map[string][]*sumInst
